@@ -156,6 +156,15 @@ func (m *AppPlacementManager) PlaceApplication(app *objects.Application) error {
 			queueName = ""
 			continue
 		}
+		// Nothing can be placed or created below the recovery queue: it is a leaf reserved for forced placement
+		if strings.HasPrefix(strings.ToLower(queueName), common.RecoveryQueueFull+configs.DOT) {
+			log.Log(log.SchedApplication).Debug("Rule returned a queue below the recovery queue",
+				zap.String("ruleName", checkRule.getName()),
+				zap.String("application", app.ApplicationID))
+			// reset the queue name for the last rule in the chain
+			queueName = ""
+			continue
+		}
 		// queueName returned make sure ACL allows access and set the queueName in the app
 		queue := m.queueFn(queueName)
 		// walk up the tree if the queue does not exist
